@@ -9,7 +9,7 @@ CONSTANTS
   CR = {"ok"}
   FK = {0, 1}
   FR = {"ok", "err"}
-  Kinds = {"cfg"}
+  Kinds = {"cfg", "nocfg"}
   Reqs = {"a"}
   Cfgs = {"k"}
   Emit = TRUE
